@@ -158,7 +158,7 @@ def _run_trace_shard(module: str, cfg: str, events: list[dict], idx: int, base: 
             f.write(json.dumps(ev, separators=(",", ":"), ensure_ascii=True))
             f.write("\n")
     vf = d / "verdict.json"
-    cmd = _java("-XX:+UseSerialGC", "3g") + [
+    cmd = _java("-XX:+UseSerialGC", "2g") + [
         "tlc2.TLC", "-workers", "1", "-metadir", str(d / "meta"), "-noGenerateSpecTE",
         "-config", cfg, module + ".tla",
     ]
